@@ -52,6 +52,16 @@ int selftest(std::string *why) {
           uint8_t x[32]; xbytes(k.Q, x);
           ST(memcmp(x, v.valid_case[c].expected, 32) == 0, "keyagg expected");
       } }
+    // BIP-327: NonceGen (the two vectors with 32-byte message and extra input, the only lengths the library API accepts)
+    { const auto &v = musig_nonce_gen_vector;
+      for (size_t c = 0; c < 2; c++) {
+          const auto &t = v.test_case[c];
+          uint8_t k1[32], k2[32], pn[66];
+          ST(nonce_gen(t.rand_, t.has_sk ? t.sk : nullptr, t.pk, t.has_aggpk ? t.aggpk : nullptr, t.has_msg ? t.msg : nullptr, 32,
+                       t.has_extra_in ? t.extra_in : nullptr, 32, k1, k2, pn), "nonce_gen ok");
+          ST(memcmp(pn, t.expected_pubnonce, 66) == 0, "nonce_gen pubnonce");
+          ST(memcmp(k1, t.expected_secnonce, 32) == 0 && memcmp(k2, t.expected_secnonce + 32, 32) == 0, "nonce_gen secnonce");
+      } }
     // BIP-327: nonce aggregation
     { const auto &v = musig_nonce_agg_vector;
       for (size_t c = 0; c < 2; c++) {
